@@ -19,6 +19,7 @@ import (
 	"errors"
 	"fmt"
 	"io"
+	"math"
 	"net/http"
 	"strconv"
 	"strings"
@@ -91,11 +92,15 @@ func (r restClientProtocol) extractProtocolRequestHeaders(op *operation, headers
 
 	if timeoutStr := headers.Get("X-Server-Timeout"); timeoutStr != "" {
 		timeout, err := restDecodeTimeout(timeoutStr)
-		if err != nil {
+		switch {
+		case errors.Is(err, errNoTimeout):
+			// Valid, but too large to represent: treat as no timeout.
+		case err != nil:
 			return requestMeta{}, err
+		default:
+			reqMeta.timeout = timeout
+			reqMeta.hasTimeout = true
 		}
-		reqMeta.timeout = timeout
-		reqMeta.hasTimeout = true
 	}
 	return reqMeta, nil
 }
@@ -424,11 +429,27 @@ func restDecodeTimeout(timeout string) (time.Duration, error) {
 	if timeout == "" {
 		return 0, nil
 	}
+	// A decimal number of seconds: digits, an optional fraction and an optional
+	// exponent. (ParseFloat alone would also admit signs, "NaN", "Inf",
+	// hexadecimal floats and digit separators.)
+	for i := 0; i < len(timeout); i++ {
+		switch char := timeout[i]; {
+		case char >= '0' && char <= '9', char == '.', char == 'e', char == 'E':
+		case (char == '+' || char == '-') && i > 0 && (timeout[i-1] == 'e' || timeout[i-1] == 'E'):
+		default:
+			return 0, fmt.Errorf("invalid timeout %q", timeout)
+		}
+	}
 	val, err := strconv.ParseFloat(timeout, 64)
-	if err != nil {
+	if err != nil && !errors.Is(err, strconv.ErrRange) {
 		return 0, fmt.Errorf("invalid timeout %q: %w", timeout, err)
 	}
-	return time.Duration(val * float64(time.Second)), nil
+	nanos := val * float64(time.Second)
+	if nanos >= float64(math.MaxInt64) {
+		// (that includes +Inf, which is what an out-of-range value parses to)
+		return 0, errNoTimeout
+	}
+	return time.Duration(nanos), nil
 }
 
 // Encode timeout as a float in seconds for X-Server-Timeout header.
